@@ -36,7 +36,7 @@ theorem C15_facts_rearm :
 theorem C15_facts_bookkeeping :
     GB.Generated.resolverHashOrder = ["hash:proto", "hash:services", "compare:return-nil", "parse", "save:lastProtoHash", "save:lastServicesHash"] ∧
     GB.Generated.resolverHashWrites = [("hashNamedProtoBundles", "sort,writeLenPrefixed"), ("hashServiceNames", "sort,writeLenPrefixed"), ("writeLenPrefixed", "PutUint64(len),Write,Write")] ∧
-    GB.Generated.resolverResolveNowClose = ["ResolveNow:call(load:notifyResolveNow)", "Close:send:done"] ∧
+    GB.Generated.resolverResolveNowClose = ["ResolveNow:load:notifyResolveNow,call", "Close:send:done"] ∧
     GB.Generated.resolverFallback = ["range:methodPriority", "if:Unimplemented:continue", "elseif:nil:swap(0,i)", "return"] := by
   decide
 
